@@ -11,7 +11,9 @@ type c12Oracle struct {
 	lastAccepted      map[string]bool   // pid -> whether that preceding submission was accepted
 }
 
-func newC12Oracle(w *World) Oracle { return &c12Oracle{lastSubmittedTOTP: map[string]string{}, lastAccepted: map[string]bool{}} }
+func newC12Oracle(w *World) Oracle {
+	return &c12Oracle{lastSubmittedTOTP: map[string]string{}, lastAccepted: map[string]bool{}}
+}
 
 func countCSV(s string) int {
 	if s == "" {
